@@ -17,7 +17,7 @@ the property through a nested call (or an induction hypothesis that is instantia
 """
 import itertools
 import z3
-from pyvc.sym import SInt, ctx
+from pyvc.sym import SInt, ctx, Unsupported
 from pyvc.nodes import band, bor, bnot, implies, ite
 from pyvc.engine import Harness
 from .common import _mv
@@ -53,7 +53,7 @@ class _Shape(Harness):
         return sign_cases(self.quick_shapes if _tier() == "quick" else self.thorough_shapes)
 
     def setup(self, c, case):
-        top, objs, leaves, lo, hi, vals = build(c, c.repo, case["shape"], case["signs"])
+        top, objs, leaves, lo, hi, vals = build(c, c.repo, case["shape"], case["signs"], prefix=case.get("prefix", ""))
         env = {l: SInt(z3.Int(f"x.{l}")) for l in leaves}
         for l in leaves:
             c.assume_global(z3.And(lo[l].t <= env[l].t, env[l].t <= hi[l].t))
@@ -78,7 +78,8 @@ class _Shape(Harness):
                 if name not in tree:
                     objs[name] = puan.variable(name, (w["lo"][name], w["hi"][name]))
                 else:
-                    objs[name] = pg.AtLeast(w["values"][name], [mk(k) for k in tree[name]], variable=name, sign=w["case"]["signs"][name])
+                    objs[name] = pg.AtLeast(w["values"][name], [mk(k) for k in tree[name]], variable=w["case"].get("prefix", "") + name,
+                                            sign=w["case"]["signs"][name])
             return objs[name]
         return mk("T"), tree
 
@@ -221,28 +222,48 @@ class ShapeNegateH(_Shape):
     function = "AtLeast.negate"
 
     def cases(self):
-        return sign_cases(["flat", "nested", "shared-leaf", "depth3"])
+        # explicit ids, also ones that look like generated ids ("VAR..."); negated once and twice
+        return sign_cases(["flat", "nested", "shared-leaf", "depth3"]) + sign_cases(["flat", "nested"], {"prefix": "VAR"})
 
     def run(self, c, st):
-        return st["top"].negate()
+        neg = st["top"].negate()
+        try:
+            # the second negation meets the ids the first one generated for pushed-in sub-propositions; ordering those
+            # against concrete ids is outside the id model (ids are opaque), so it is attempted, not required
+            negneg = st["top"].negate().negate()
+        except Unsupported:
+            negneg = None
+        return {"neg": neg, "negneg": negneg}
 
     def ensures(self, c, st, res):
         t = truth(st["top"], st["env"])
-        return [("shape.negate.complement", truth(res, st["env"]) == 1 - t), ("shape.negate.id", res.id == "T")]
+        tid = c.state_case.get("prefix", "") + "T"
+        out = [("shape.negate.complement", truth(res["neg"], st["env"]) == 1 - t), ("shape.negate.id", res["neg"].id == tid)]
+        if res["negneg"] is not None:
+            out += [("shape.negate.twice", truth(res["negneg"], st["env"]) == t), ("shape.negate.twice.id", res["negneg"].id == tid)]
+        return out
 
     def replay(self, w):
         top, tree = self.native(w)
         violated, detail = [], {"model": top.to_text()}
         neg = top.negate()
         detail["negated"] = neg.to_text()
-        if neg.id != "T":
+        tid = w["case"].get("prefix", "") + "T"
+        if neg.id != tid:
             violated.append("shape.negate.id")
+        if top.negate().negate().id != tid:
+            violated.append("shape.negate.twice.id")
         for env in self.points(w, tree):
             m, _ = self.native(w)
             got = m.negate().evaluate(dict(env))
             t = self.tv(w, tree, "T", env)
             if tuple(got.as_tuple()) != (1 - t, 1 - t):
                 violated.append("shape.negate.complement"); detail.update(interpretation=env, got=[int(x) for x in got.as_tuple()], original=t)
+                break
+            m2, _ = self.native(w)
+            got2 = m2.negate().negate().evaluate(dict(env))
+            if tuple(got2.as_tuple()) != (t, t):
+                violated.append("shape.negate.twice"); detail.update(interpretation=env, twice=[int(x) for x in got2.as_tuple()], original=t)
                 break
         return {"violated": violated, "detail": detail}
 
@@ -312,4 +333,120 @@ class ShapeJsonH(_Shape):
         return {"violated": violated, "detail": detail}
 
 
-HARNESSES = [ShapeEvaluateH(), ShapePartialH(), ShapeAssumeH(), ShapeNegateH(), ShapeReduceH(), ShapeJsonH()]
+class ShapeJsonImplyH(_Shape):
+    """the JSON round trip of an Imply / Not built by the real constructors around sub-propositions with symbolic thresholds
+    and explicit ids -- also ids that look generated ("VAR...") -- : the negation inside Imply / Not and its undoing in
+    to_json must neither change the meaning nor lose an explicit id"""
+    name = "shape.json.imply"
+    function = "Imply.to_json"
+    functions = ["Imply.to_json", "Imply.from_json", "Imply.__init__", "Not.__new__", "AtLeast.negate", "from_json"]
+
+    def cases(self):
+        out = []
+        for kind in ("imply", "not"):
+            for prefix in ("", "VAR"):
+                for sg in ((1, 1), (-1, 1)):
+                    out.append({"kind": kind, "prefix": prefix, "signs": {"C": sg[0], "D": sg[1]}})
+        return out
+
+    def setup(self, c, case):
+        from .common import mk_variable
+        repo = c.repo
+        pre = case["prefix"]
+        leaves = ["a", "b", "d"]
+        lo = {l: SInt(z3.Int(f"lo.{l}")) for l in leaves}
+        hi = {l: SInt(z3.Int(f"hi.{l}")) for l in leaves}
+        for l in leaves:
+            c.assume_global(z3.And(lo[l].t <= hi[l].t, lo[l].t >= -32768, hi[l].t <= 32767))
+        lv = {l: mk_variable(repo, l, lo[l], hi[l]) for l in leaves}
+        vals = {}
+
+        def node(name, kids, sign):
+            n = object.__new__(repo.plog.AtLeast)
+            vals[name] = SInt(z3.Int(f"value.{name}"))
+            n.__dict__.update(generated_id=False, sign=sign, value=vals[name], propositions=sorted(kids, key=lambda x: x.id),
+                              variable=mk_variable(repo, pre + name, 0, 1))
+            return n
+        C = node("C", [lv["a"], lv["b"]], case["signs"]["C"])
+        D = node("D", [lv["b"], lv["d"]], case["signs"]["D"])
+        if case["kind"] == "imply":
+            top = repo.plog.Imply(C, D, variable=pre + "T")
+            ids = [pre + "T", pre + "C", pre + "D"]
+        else:
+            top = repo.plog.All(repo.plog.Not(C), D, variable=pre + "T")
+            ids = [pre + "T", pre + "C", pre + "D"]
+        env = {l: SInt(z3.Int(f"x.{l}")) for l in leaves}
+        for l in leaves:
+            c.assume_global(z3.And(lo[l].t <= env[l].t, env[l].t <= hi[l].t))
+        return {"top": top, "env": env, "ids": ids, "lo": lo, "hi": hi, "vals": vals, "leaves": leaves, "objs": {}}
+
+    def run(self, c, st):
+        js = st["top"].to_json()
+        try:
+            back = c.repo.plog.from_json(js)
+        except Unsupported:
+            # e.g. a record written WITHOUT an explicit id: the reader then generates one from symbolic thresholds, and
+            # ordering a generated id against concrete ids is outside the id model; the writer's obligations still stand
+            back = None
+        return {"js": js, "back": back}
+
+    @staticmethod
+    def _ids(js):
+        out = []
+        if isinstance(js, dict):
+            if "id" in js:
+                out.append(js["id"])
+            for v in js.values():
+                out += ShapeJsonImplyH._ids(v)
+        elif isinstance(js, list):
+            for v in js:
+                out += ShapeJsonImplyH._ids(v)
+        return out
+
+    def ensures(self, c, st, res):
+        t = truth(st["top"], st["env"])
+        written = self._ids(res["js"])
+        out = [("shape.json.imply.ids-written", all(i in written for i in st["ids"]))]
+        if res["back"] is not None:
+            back_ids = [x.id for x in res["back"].flatten()]
+            out += [("shape.json.imply.meaning", truth(res["back"], st["env"]) == t),
+                    ("shape.json.imply.ids-kept", all(i in back_ids for i in st["ids"]))]
+        return out
+
+    def concretise(self, case, k, model, c, st):
+        g = lambda v: _mv(model, v.t)
+        return {"case": dict(case), "lo": {l: g(v) for l, v in st["lo"].items()}, "hi": {l: g(v) for l, v in st["hi"].items()},
+                "values": {n: g(v) for n, v in st["vals"].items()}, "x": {l: g(v) for l, v in st["env"].items()}}
+
+    def replay(self, w):
+        import json
+        import puan
+        import puan.logic.plog as pg
+        case = w["case"]
+        pre = case["prefix"]
+
+        def build():
+            lv = {l: puan.variable(l, (w["lo"][l], w["hi"][l])) for l in ("a", "b", "d")}
+            C = pg.AtLeast(w["values"]["C"], [lv["a"], lv["b"]], variable=pre + "C", sign=case["signs"]["C"])
+            D = pg.AtLeast(w["values"]["D"], [lv["b"], lv["d"]], variable=pre + "D", sign=case["signs"]["D"])
+            return pg.Imply(C, D, variable=pre + "T") if case["kind"] == "imply" else pg.All(pg.Not(C), D, variable=pre + "T")
+        top = build()
+        js = json.loads(json.dumps(top.to_json()))
+        back = pg.from_json(js)
+        ids = [pre + "T", pre + "C", pre + "D"]
+        violated, detail = [], {"model": top.to_text(), "json": js}
+        if not all(i in self._ids(js) for i in ids):
+            violated.append("shape.json.imply.ids-written")
+        if not all(i in [x.id for x in back.flatten()] for i in ids):
+            violated.append("shape.json.imply.ids-kept")
+        import itertools as it
+        box = [sorted({w["lo"][l], w["hi"][l], min(max(w["x"][l], w["lo"][l]), w["hi"][l])}) for l in ("a", "b", "d")]
+        for pt in it.product(*box):
+            env = dict(zip(("a", "b", "d"), pt))
+            if tuple(build().evaluate(dict(env)).as_tuple()) != tuple(pg.from_json(json.loads(json.dumps(js))).evaluate(dict(env)).as_tuple()):
+                violated.append("shape.json.imply.meaning"); detail["interpretation"] = env
+                break
+        return {"violated": violated, "detail": detail}
+
+
+HARNESSES = [ShapeJsonImplyH(), ShapeEvaluateH(), ShapePartialH(), ShapeAssumeH(), ShapeNegateH(), ShapeReduceH(), ShapeJsonH()]
